@@ -328,6 +328,22 @@ std::string run(verif::Reader &rd, Case &c, World &w) {
                 Res &R = w.r[k2];
                 const char *what = "";
                 {
+                    // what the call hands back must be an object of its own, not (a reference to) a part of some live string: a caller that binds
+                    // the result to a reference (auto &&r = s.to_utf8();) keeps using it after s was modified
+                    va::LibScope l;
+                    const void *ret_addr = nullptr;
+                    switch (op) {
+                    case 36: { auto &&ret = S->to_utf8(); ret_addr = &ret; } break;
+                    case 37: { auto &&ret = S->to_utf16(); ret_addr = &ret; } break;
+                    case 38: { auto &&ret = S->to_utf32(); ret_addr = &ret; } break;
+                    case 39: { auto &&ret = S->to_wchar(); ret_addr = &ret; } break;
+                    case 40: { auto &&ret = S->to_latin_1(); ret_addr = &ret; } break;
+                    default: break;
+                    }
+                    if (ret_addr) for (int q2 = 0; q2 < NS; q2++) if (w.inside(q2, ret_addr))
+                        return "step " + verif::unum(k) + " (op " + verif::num(op) + " on string " + verif::num(i) + "): the call returns a reference to a part of the live ST::string object in slot " + verif::num(q2) + " instead of an object that owns its storage";
+                }
+                {
                     va::LibScope l;
                     switch (op) {
                     case 36: R.obj = new ST::char_buffer(S->to_utf8()); R.kind = 1; what = "to_utf8"; break;
